@@ -137,8 +137,18 @@ func (d *Dumper) obj(v reflect.Value, path string, parent interface{}) map[strin
 		if !d.wanted(rt) {
 			continue
 		}
-		if _, isIdentity := v.Interface().(*meta.Identity); isIdentity && (m.Name == "Base" || m.Name == "DerivedDirect") {
-			continue // names are reported through BaseIds / DerivedDirectIds
+		if id, isIdentity := v.Interface().(*meta.Identity); isIdentity && (m.Name == "Base" || m.Name == "DerivedDirect") {
+			// the identities themselves are dumped where they are defined; here the order in which they are handed out
+			if m.Name == "DerivedDirect" {
+				var order []interface{}
+				for _, x := range id.DerivedDirect() {
+					order = append(order, x.Ident())
+				}
+				if order != nil {
+					out["DerivedDirect(order)"] = order
+				}
+			}
+			continue
 		}
 		if _, isImport := v.Interface().(*meta.Import); isImport && m.Name == "Module" {
 			continue
